@@ -137,6 +137,7 @@ MUTANTS = [
     M('parser:process:tombstone-entered', 'parser', ['C02'], 'process', 'if kind != TOMBSTONE {', 'if true {'),
     M('parser:complete:two-finish-events', 'parser', ['C02', 'C01'], 'Marker::complete', 'p.push_event(Event::Finish);', 'p.push_event(Event::Finish); p.push_event(Event::Finish);'),
     M('parser:index_expr:swallows-all-index-operators', 'parser', ['C05'], 'index_expr', '    index_operator(p);\n', '    while p.at(T![\'[\']) && !p.at(EOF) {\n        index_operator(p);\n    }\n'),
+    M('parser:if_stmt:else-if-continues-the-node', 'parser', ['C05'], 'if_stmt', '            let m = p.start();\n            if_stmt(p, m);\n', '            return if_stmt(p, m);\n'),
     # ---- LEX extents
     M('lex:line_comment:stops-at-space', 'lex', ['C15', 'C14'], "Cursor<'_>::line_comment", "{ c != '\\n' });", "{ c != '\\n' && c != ' ' });"),
     M('lex:eat_identifier:start-test-inverted', 'lex', ['C15'], "Cursor<'_>::eat_identifier", 'if !is_id_start(self.first()) {', 'if is_id_start(self.first()) {'),
